@@ -301,6 +301,30 @@ def valueUnit [Mul K] [One K] [IntCast K] (fac : String → K) (t : DM K) : Opti
         | some _ => none
   | _, _ => none
 
+/-- `uc.model(value, units, error=e)` for a float error array of the same shape: the error is converted like the
+    value and stored under `error`, between `value` and `shape`. -/
+def ucModelE [Div K] [One K] [IntCast K] (fac : String → K) (units : Option String) (a : Arr K) (e : List K) :
+    Option (DM K) :=
+  match writeData fac units a.data, writeData fac units (.flt e) with
+  | some d, some de =>
+    match valueNode a.shape d.toScs, valueNode a.shape de.toScs with
+    | some v, some ve => some (.node (("value", v) :: ("error", ve) :: (shapeEntry a.shape ++ unitEntry units)))
+    | _, _ => none
+  | _, _ => none
+
+/-- the term `uc.error_unit` works on: `term['error']` in the place of `term['value']` (`KeyError` when absent),
+    with the same `unit` and `shape` entries. -/
+def errTerm : DM K → Option (DM K)
+  | .node kv =>
+    match kv.lookup "error" with
+    | some ve => some (.node (("value", ve) :: kv.filter (fun e => e.1 != "value" && e.1 != "error")))
+    | none => none
+  | _ => none
+
+/-- `uc.error_unit(term)`. -/
+def errorUnit [Mul K] [One K] [IntCast K] (fac : String → K) (t : DM K) : Option (Arr K) :=
+  (errTerm t).bind (valueUnit fac)
+
 /-! ### near-zero clean-up shared by `Box.vects` and `ElasticConstants.Cij` setters -/
 
 def absK [Neg K] [OfNat K 0] [LT K] [DecidableLT K] (x : K) : K := if x < 0 then -x else x
